@@ -194,6 +194,11 @@ impl Monitor for Mon {
             stats.bump("probe.foreign-panic");
             return None;
         }
+        if w.env.borrow().unspecified_seen > 0 {
+            // a frame the statements are silent about was heard: the reference cannot follow the device
+            stats.bump("probe.stood-down-after-unspecified-frame");
+            return None;
+        }
         let region = w.env.borrow().cfg.region;
         let keys = w.dut.session_keys();
         if keys != self.cur_keys {
